@@ -79,6 +79,20 @@ def stepT (U : Universe) (w : World) (s : State) : TState → State × TState
     | none => ({ s with xsi := s.xsi ++ [(q, [])] }, .done (.gotTypes []))
   | .done o => (s, .done o)
 
+/-- an upper bound on the number of shared operations the thread still has to
+perform (`n` = number of index entries a rebuild appends) -/
+def TState.remaining (n : Nat) : TState → Nat
+  | .bCheck _ _ => 3
+  | .bWrite _ _ => 2
+  | .bRead _ => 1
+  | .xCheck _ => n + 6
+  | .xClear _ => n + 5
+  | .xFill _ todo => todo.length + 4
+  | .xStamp _ => 3
+  | .xContains _ => 2
+  | .xGet _ => 1
+  | .done _ => 0
+
 structure Thread where
   prog : Prog
   st : TState
